@@ -21,6 +21,8 @@ struct SimFile {
   Rng io_rng{1};
   long size_cap = -1;              // writes that would grow the file beyond this fail (simulated full disk; only used to contain known-defect runs)
   bool cap_hit = false;
+  long read_err_at = -1;           // reads at or beyond this offset fail with EIO (simulated media error), every time
+  long read_errors = 0;
   // synthetic read-only content (function of the offset), for messages too large to store
   bool synth = false;
   long synth_len = 0;
